@@ -22,6 +22,7 @@ RULE = (
     "length of the unallocated run before it, or is one cluster off) and plain images; opened as HDS(fh) and, for one case in "
     "six, as HDD(dir).open() from a generated DiskDescriptor.xml in a temp dir. Reads must equal the content model. "
     "Non-trivial = a request contains an unallocated run directly followed by an allocated cluster, or the image is v1."
+    ' BATs that end exactly where the first data block begins; image files named by relative paths with a directory part or in decomposed Unicode form.'
 )
 ASSUMPTIONS = [
     "allocated clusters never sit at file sector 0 (BAT entry 0 means unallocated in the format itself)",
